@@ -13,6 +13,12 @@ from vtlengine.Operators import Binary, Operator
 from vtlengine.Utils.__Virtual_Assets import VirtualCounter
 
 
+
+def _by_name(components: Any) -> Any:
+    """Components ordered by name: two datasets may declare the same components in any order."""
+    return sorted(components, key=lambda c: c.name)
+
+
 class If(Operator):
     @classmethod
     def validate(  # noqa: C901
@@ -70,7 +76,7 @@ class If(Operator):
                 left.data_type, right.data_type
             )
             return Dataset(name=dataset_name, components=copy(condition.components), data=None)
-        if left.get_identifiers() != condition.get_identifiers():
+        if _by_name(left.get_identifiers()) != _by_name(condition.get_identifiers()):
             raise SemanticError("1-1-9-10", op=cls.op, clause=left.name)
         if isinstance(right, Scalar):
             for component in left.get_measures():
@@ -79,9 +85,9 @@ class If(Operator):
                         component.data_type, right.data_type
                     )
         if isinstance(right, Dataset):
-            if left.get_identifiers() != condition.get_identifiers():
+            if _by_name(left.get_identifiers()) != _by_name(condition.get_identifiers()):
                 raise SemanticError("1-1-9-10", op=cls.op, clause=right.name)
-            if left.get_components_names() != right.get_components_names():
+            if sorted(left.get_components_names()) != sorted(right.get_components_names()):
                 raise SemanticError("1-1-9-13", op=cls.op, then=left.name, else_clause=right.name)
             for component in left.get_measures():
                 if component.data_type != right.components[component.name].data_type:
@@ -100,7 +106,7 @@ class If(Operator):
                     op=cls.op,
                     type=SCALAR_TYPES_CLASS_REVERSE[condition.get_measures()[0].data_type],
                 )
-            if left.get_identifiers() != condition.get_identifiers():
+            if _by_name(left.get_identifiers()) != _by_name(condition.get_identifiers()):
                 raise SemanticError("1-1-9-6", op=cls.op)
         result_components = {comp_name: copy(comp) for comp_name, comp in left.components.items()}
         return Dataset(name=dataset_name, components=result_components, data=None)
@@ -240,7 +246,7 @@ class Case(Operator):
         components = next(op for op in ops if isinstance(op, Dataset)).components
         comp_names = [comp.name for comp in components.values()]
         for op in ops:
-            if isinstance(op, Dataset) and op.get_components_names() != comp_names:
+            if isinstance(op, Dataset) and sorted(op.get_components_names()) != sorted(comp_names):
                 raise SemanticError("2-1-9-7", op=cls.op)
 
         return Dataset(name=dataset_name, components=components, data=None)
